@@ -5,6 +5,7 @@ import (
 	"net/url"
 	"regexp"
 	"runtime/debug"
+	"sort"
 	"strings"
 	"time"
 
@@ -59,7 +60,8 @@ func loadTargets() ([]*target, error) {
 
 func envHeader(ts []*target) string {
 	var sb strings.Builder
-	sb.WriteString("From Coq Require Import String List NArith ZArith.\nFrom J5V.lib Require Import Json.\nFrom J5V.model Require Import CodecTypes CodecDecScalar CodecDec CodecDecCorr.\nImport ListNotations.\nLocal Open Scope N_scope.\n")
+	codecgen.Packed = true
+	sb.WriteString("From Coq Require Import String List NArith ZArith.\nFrom Coq Require Import Uint63.\nFrom J5V.lib Require Import Json Pack.\nFrom J5V.model Require Import CodecTypes CodecDecScalar CodecDec CodecDecCorr.\nImport ListNotations.\nLocal Open Scope N_scope.\n")
 	for _, t := range ts {
 		fmt.Fprintf(&sb, "Definition %s : env := %s.\n", t.Name, t.Env.Coq())
 	}
@@ -166,6 +168,31 @@ func decCase(t *target, doc []byte, o obs) string {
 	orc.AddTokens(toks)
 	f, tm, d := orc.Coq()
 	return fmt.Sprintf("CDec %s %s %s %s %s %s %s", t.Name, codecgen.BytesTerm(t.Env.Root), codecgen.BytesTerm(string(doc)), f, tm, d, o.Coq())
+}
+
+// queryCase renders a CQuery case term; keys in sorted order (the model tries every order).
+func queryCase(t *target, q url.Values, o obs) string {
+	orc := codecgen.NewOracles()
+	keys := make([]string, 0, len(q))
+	for k := range q {
+		keys = append(keys, k)
+	}
+	sort.Strings(keys)
+	var kvs []string
+	for _, k := range keys {
+		var vs []string
+		for _, v := range q[k] {
+			vs = append(vs, codecgen.BytesTerm(v))
+			orc.Add(v, true)
+			if strings.HasPrefix(strings.TrimSpace(v), "{") {
+				toks, _ := codecgen.Tokens([]byte(strings.TrimSpace(v)))
+				orc.AddTokens(toks)
+			}
+		}
+		kvs = append(kvs, fmt.Sprintf("(%s, [%s])", codecgen.BytesTerm(k), strings.Join(vs, "; ")))
+	}
+	f, tm, d := orc.Coq()
+	return fmt.Sprintf("CQuery %s %s [%s] %s %s %s %s", t.Name, codecgen.BytesTerm(t.Env.Root), strings.Join(kvs, "; "), f, tm, d, o.Coq())
 }
 
 func short(b []byte) string {
